@@ -465,13 +465,6 @@ package shaping
 //@   loop 1 invariant [right] forall(k, upper+1, len(pairedDelims), pairedDelims[k] > ch)
 //@   loop 1 decreases upper - lower + 1
 //
-// Vertical orientation pass: same partition contract; every rune of an output run has the run's orientation.
-//@ opaque sidewaysRune(vo unicodedata.ScriptVerticalOrientation, r rune) bool
-//@ trusted std:unicodedata.ScriptVerticalOrientation.Orientation
-//@   ensures [def] isSideways == sidewaysRune(sv, r)
-//@   modifies nothing
-//@ opaque scriptOrientation(s language.Script) unicodedata.ScriptVerticalOrientation
-//
 // Segmenter.reset: the three reused buffers are emptied, so Split's result depends on its arguments only (C13 shares this).
 // splitByScript ("all runes with a specific script share the run's script (neutral characters and matched brackets
 // follow their context)"). scriptOf = language.LookupScript (a pure function of the rune, see its contract).
@@ -479,6 +472,7 @@ package shaping
 // Inherited) has the run's script; the runs lie inside their texts. The bracket stack: once the script of the
 // current run is known no pending open bracket is left unresolved (script Common), which is what makes a closing
 // bracket follow the context of its opener.
+//@ spec inputsContiguous(in []Input) bool = forall(k, 0, len(in)-1, in[k].RunEnd == in[k+1].RunStart)
 //@ spec strongRunesMatch(in Input, lo int, hi int) bool = forall(p, lo, hi, implies(language.LookupScript(in.Text[p]).Strong(), language.LookupScript(in.Text[p]) == in.Script))
 //@ spec stackWF(st []delimEntry) bool = forall(k, 0, len(st), st[k].script != language.Inherited)
 //@ spec stackResolved(st []delimEntry) bool = forall(k, 0, len(st), st[k].script != language.Common)
@@ -490,7 +484,16 @@ package shaping
 //@   ensures [one-or-more-runs-per-input] len(seg.output) >= old(len(seg.output)) + len(seg.input)
 //@   ensures [strong-runes-share-run-script] forall(m, old(len(seg.output)), len(seg.output), strongRunesMatch(seg.output[m], seg.output[m].RunStart, seg.output[m].RunEnd))
 //@   ensures [runs-in-text] forall(m, old(len(seg.output)), len(seg.output), 0 <= seg.output[m].RunStart && seg.output[m].RunStart <= seg.output[m].RunEnd && seg.output[m].RunEnd <= len(seg.output[m].Text))
+//   partition: when the inputs are consecutive (they are the runs produced by the previous stage), so are the runs
+//   appended, from the start of the first input to the end of the last; non-empty inputs give non-empty runs
+//@   ensures [contiguous] implies(inputsContiguous(seg.input), forall(m, old(len(seg.output)), len(seg.output)-1, seg.output[m].RunEnd == seg.output[m+1].RunStart))
+//@   ensures [covers] implies(inputsContiguous(seg.input) && len(seg.input) > 0, seg.output[old(len(seg.output))].RunStart == seg.input[0].RunStart && seg.output[len(seg.output)-1].RunEnd == seg.input[len(seg.input)-1].RunEnd)
+//@   ensures [non-empty] implies(forall(k, 0, len(seg.input), seg.input[k].RunStart < seg.input[k].RunEnd), forall(m, old(len(seg.output)), len(seg.output), seg.output[m].RunStart < seg.output[m].RunEnd))
 //@   modifies unspecified
+//@   loop 1 invariant [nothing-yet] implies(rangeindex == -1, len(seg.output) == old(len(seg.output)))
+//@   loop 1 invariant [chain] implies(inputsContiguous(seg.input), forall(m, old(len(seg.output)), len(seg.output)-1, seg.output[m].RunEnd == seg.output[m+1].RunStart))
+//@   loop 1 invariant [tail] implies(inputsContiguous(seg.input) && rangeindex >= 0, len(seg.output) > old(len(seg.output)) && seg.output[len(seg.output)-1].RunEnd == seg.input[rangeindex].RunEnd && seg.output[old(len(seg.output))].RunStart == seg.input[0].RunStart)
+//@   loop 1 invariant [non-empty] implies(forall(k, 0, len(seg.input), seg.input[k].RunStart < seg.input[k].RunEnd), forall(m, old(len(seg.output)), len(seg.output), seg.output[m].RunStart < seg.output[m].RunEnd))
 //@   loop 1 invariant [input-kept] sameslice(seg.input, old(seg.input)) && (rid(seg.input) != rid(seg.output) || len(seg.input) == 0) && forall(k, 0, len(seg.input), 0 <= seg.input[k].RunStart && seg.input[k].RunStart <= seg.input[k].RunEnd && seg.input[k].RunEnd <= len(seg.input[k].Text))
 //@   loop 1 invariant [grows] len(seg.output) >= old(len(seg.output)) + rangeindex+1
 //@   loop 1 invariant [done] forall(m, old(len(seg.output)), len(seg.output), strongRunesMatch(seg.output[m], seg.output[m].RunStart, seg.output[m].RunEnd) && 0 <= seg.output[m].RunStart && seg.output[m].RunStart <= seg.output[m].RunEnd && seg.output[m].RunEnd <= len(seg.output[m].Text))
@@ -499,6 +502,10 @@ package shaping
 //@   loop 2 invariant [input-kept] sameslice(seg.input, old(seg.input)) && (rid(seg.input) != rid(seg.output) || len(seg.input) == 0) && forall(k, 0, len(seg.input), 0 <= seg.input[k].RunStart && seg.input[k].RunStart <= seg.input[k].RunEnd && seg.input[k].RunEnd <= len(seg.input[k].Text))
 //@   loop 2 invariant [i-range] 0 <= input.RunStart && input.RunStart <= currentInput.RunStart && currentInput.RunStart <= i && i <= input.RunEnd && input.RunEnd <= len(input.Text) && sameslice(currentInput.Text, input.Text)
 //@   loop 2 invariant [non-empty-so-far] currentInput.RunStart < i || i == input.RunStart
+//@   loop 2 invariant [this-input] 0 <= rangeindex && rangeindex < len(seg.input) && input.RunStart == seg.input[rangeindex].RunStart && input.RunEnd == seg.input[rangeindex].RunEnd
+//@   loop 2 invariant [chain] implies(inputsContiguous(seg.input), forall(m, old(len(seg.output)), len(seg.output)-1, seg.output[m].RunEnd == seg.output[m+1].RunStart))
+//@   loop 2 invariant [tail] implies(inputsContiguous(seg.input), (len(seg.output) == old(len(seg.output)) && rangeindex == 0 && currentInput.RunStart == input.RunStart) || (len(seg.output) > old(len(seg.output)) && seg.output[len(seg.output)-1].RunEnd == currentInput.RunStart && seg.output[old(len(seg.output))].RunStart == seg.input[0].RunStart))
+//@   loop 2 invariant [non-empty] implies(forall(k, 0, len(seg.input), seg.input[k].RunStart < seg.input[k].RunEnd), forall(m, old(len(seg.output)), len(seg.output), seg.output[m].RunStart < seg.output[m].RunEnd))
 //@   loop 2 invariant [grows] len(seg.output) >= old(len(seg.output)) + rangeindex
 //@   loop 2 invariant [done] forall(m, old(len(seg.output)), len(seg.output), strongRunesMatch(seg.output[m], seg.output[m].RunStart, seg.output[m].RunEnd) && 0 <= seg.output[m].RunStart && seg.output[m].RunStart <= seg.output[m].RunEnd && seg.output[m].RunEnd <= len(seg.output[m].Text))
 //@   loop 2 invariant [current-run] strongRunesMatch(currentInput, currentInput.RunStart, i) && currentInput.Script != language.Inherited
@@ -510,6 +517,66 @@ package shaping
 //   the resolution of the pending brackets
 //@   loop 4 invariant [resolved-so-far] forall(k, 0, rangeindex+1, seg.delimStack[k].script == rScript) && rScript.Strong()
 //@   loop 4 invariant [stack-wf] stackWF(seg.delimStack)
+//
+// splitByBidi ("the result does not depend on earlier uses of the same segmenter"): the bidi paragraph is a field of
+// the segmenter and is reused; golang.org/x/text's Paragraph.SetString only replaces the paragraph's options when it
+// is given some (assumed contract on the dependency, stated as its precondition below), so every call must pass the
+// default direction explicitly. The resolution of the embedding levels itself is x/text's and is not verified.
+//@ trusted golang.org/x/text/unicode/bidi.Paragraph.SetString
+//@   requires [default-direction-given] len(opts) >= 1
+//@   modifies unspecified
+//@ func Segmenter.splitByBidi C07
+//@   mode int
+//@   requires [run-in-text] 0 <= text.RunStart && text.RunEnd <= len(text.Text)
+//@   ensures [empty-run-kept] implies(text.RunStart >= text.RunEnd, len(seg.output) == old(len(seg.output))+1 && seg.output[len(seg.output)-1].RunStart == text.RunStart && seg.output[len(seg.output)-1].RunEnd == text.RunEnd)
+//@   modifies unspecified
+//
+// enforceLanguages ("the language tag is compatible with the script"): every run gets enforceLang(initial, script).
+//@ trusted std:language.NewLangID
+//@   modifies nothing
+//@ trusted std:language.LangID.Language
+//@   modifies nothing
+//@ func Segmenter.enforceLanguages C07
+//@   mode int
+//@   requires [non-empty] len(seg.output) > 0
+//@   ensures [runs-kept] len(seg.output) == old(len(seg.output)) && forall(k, 0, len(seg.output), seg.output[k].RunStart == old(seg.output[k].RunStart) && seg.output[k].RunEnd == old(seg.output[k].RunEnd) && seg.output[k].Script == old(seg.output[k].Script) && seg.output[k].Direction == old(seg.output[k].Direction) && seg.output[k].Face == old(seg.output[k].Face))
+//@   modifies seg.output[:].Language
+//@   loop 1 invariant [header] sameslice(seg.output, old(seg.output))
+//
+// splitByVertOrientation ("orientation is uniform"): orientOf is the orientation unicodedata assigns to a rune for
+// the run's script (ScriptVerticalOrientation.Orientation, trusted to be a function of its arguments). The runs
+// appended for one input are cut exactly where the orientation changes.
+//@ opaque orientOf(sv unicodedata.ScriptVerticalOrientation, r rune) bool
+//@ trusted std:unicodedata.ScriptVerticalOrientation.Orientation
+//@   ensures [function-of-arguments] result == orientOf(sv, r)
+//@   modifies nothing
+//@ trusted std:unicodedata.LookupVerticalOrientation
+//@   modifies nothing
+//@ func Segmenter.splitByVertOrientation C07
+//@   mode int
+//@   requires [inputs-in-text] forall(k, 0, len(seg.input), 0 <= seg.input[k].RunStart && seg.input[k].RunStart <= seg.input[k].RunEnd && seg.input[k].RunEnd <= len(seg.input[k].Text))
+//@   requires [buffers-distinct] rid(seg.input) != rid(seg.output) || len(seg.input) == 0
+//@   ensures [one-or-more-runs-per-input] len(seg.output) >= old(len(seg.output)) + len(seg.input)
+//@   ensures [contiguous] implies(inputsContiguous(seg.input), forall(m, old(len(seg.output)), len(seg.output)-1, seg.output[m].RunEnd == seg.output[m+1].RunStart))
+//@   ensures [covers] implies(inputsContiguous(seg.input) && len(seg.input) > 0, seg.output[old(len(seg.output))].RunStart == seg.input[0].RunStart && seg.output[len(seg.output)-1].RunEnd == seg.input[len(seg.input)-1].RunEnd)
+//@   ensures [non-empty] implies(forall(k, 0, len(seg.input), seg.input[k].RunStart < seg.input[k].RunEnd), forall(m, old(len(seg.output)), len(seg.output), seg.output[m].RunStart < seg.output[m].RunEnd))
+//@   modifies unspecified
+//@   loop 1 invariant [input-kept] sameslice(seg.input, old(seg.input)) && (rid(seg.input) != rid(seg.output) || len(seg.input) == 0) && forall(k, 0, len(seg.input), 0 <= seg.input[k].RunStart && seg.input[k].RunStart <= seg.input[k].RunEnd && seg.input[k].RunEnd <= len(seg.input[k].Text))
+//@   loop 1 invariant [grows] len(seg.output) >= old(len(seg.output)) + rangeindex+1
+//@   loop 1 invariant [nothing-yet] implies(rangeindex == -1, len(seg.output) == old(len(seg.output)))
+//@   loop 1 invariant [chain] implies(inputsContiguous(seg.input), forall(m, old(len(seg.output)), len(seg.output)-1, seg.output[m].RunEnd == seg.output[m+1].RunStart))
+//@   loop 1 invariant [tail] implies(inputsContiguous(seg.input) && rangeindex >= 0, len(seg.output) > old(len(seg.output)) && seg.output[len(seg.output)-1].RunEnd == seg.input[rangeindex].RunEnd && seg.output[old(len(seg.output))].RunStart == seg.input[0].RunStart)
+//@   loop 1 invariant [non-empty] implies(forall(k, 0, len(seg.input), seg.input[k].RunStart < seg.input[k].RunEnd), forall(m, old(len(seg.output)), len(seg.output), seg.output[m].RunStart < seg.output[m].RunEnd))
+//@   loop 2 invariant [input-kept] sameslice(seg.input, old(seg.input)) && (rid(seg.input) != rid(seg.output) || len(seg.input) == 0) && forall(k, 0, len(seg.input), 0 <= seg.input[k].RunStart && seg.input[k].RunStart <= seg.input[k].RunEnd && seg.input[k].RunEnd <= len(seg.input[k].Text))
+//@   loop 2 invariant [i-range] 0 <= input.RunStart && input.RunStart <= currentInput.RunStart && currentInput.RunStart <= i && i <= input.RunEnd && input.RunEnd <= len(input.Text) && sameslice(currentInput.Text, input.Text)
+//@   loop 2 invariant [non-empty-so-far] currentInput.RunStart < i || i == input.RunStart
+//@   loop 2 invariant [own-region] rid(seg.output) != ridof(currentInput) && rid(seg.input) != ridof(currentInput)
+//@   loop 2 invariant [this-input] 0 <= rangeindex && rangeindex < len(seg.input) && input.RunStart == seg.input[rangeindex].RunStart && input.RunEnd == seg.input[rangeindex].RunEnd
+//@   loop 2 invariant [grows] len(seg.output) >= old(len(seg.output)) + rangeindex
+//@   loop 2 invariant [uniform-so-far] forall(p, currentInput.RunStart, i, orientOf(vo, currentInput.Text[p]) == currentInput.Direction.IsSideways())
+//@   loop 2 invariant [chain] implies(inputsContiguous(seg.input), forall(m, old(len(seg.output)), len(seg.output)-1, seg.output[m].RunEnd == seg.output[m+1].RunStart))
+//@   loop 2 invariant [tail] implies(inputsContiguous(seg.input), (len(seg.output) == old(len(seg.output)) && rangeindex == 0 && currentInput.RunStart == input.RunStart) || (len(seg.output) > old(len(seg.output)) && seg.output[len(seg.output)-1].RunEnd == currentInput.RunStart && seg.output[old(len(seg.output))].RunStart == seg.input[0].RunStart))
+//@   loop 2 invariant [non-empty] implies(forall(k, 0, len(seg.input), seg.input[k].RunStart < seg.input[k].RunEnd), forall(m, old(len(seg.output)), len(seg.output), seg.output[m].RunStart < seg.output[m].RunEnd))
 //
 //@ func Segmenter.reset C07 C13
 //@   mode int
